@@ -422,7 +422,9 @@ def parse(expr):
 
     def remove_backticks(expr):
         if not isinstance(expr, var):
-            return expr
+            # Returning None makes the substitutor descend into *expr*
+            # (e.g. a subscript of a backtick-quoted name).
+            return None
         varname = expr.name
         if varname.startswith("`") and varname.endswith("`"):
             return var(varname[1:-1])
